@@ -17,6 +17,7 @@ Exit codes: 0 = held on everything explored (known findings are printed as KNOWN
 from __future__ import annotations
 
 import hashlib
+import glob
 import json
 import os
 import sys
@@ -327,6 +328,20 @@ def main(argv: Optional[List[str]] = None) -> int:
         print(f'HARNESS-ERROR property={pid} {len(errors)} shard(s) crashed')
         return 2
     merged = merge(results)
+    # regression tier: the saved failing inputs of defects that have been repaired are replayed on every run; a finding
+    # they produce is treated like one met by the random search (a fixed entry suppresses nothing)
+    regressions = sorted(glob.glob(os.path.join(VERIF_DIR, 'regressions', f'{pid}-*.json')))
+    for rp in regressions:
+        try:
+            with open(rp) as f:
+                case = json.load(f)['case']
+            for finding in module.replay(case):
+                merged.findings.append(finding)
+        except Exception:
+            traceback.print_exc()
+            print(f'HARNESS-ERROR property={pid} regression replay {rp} crashed')
+            return 2
+    merged.classes['regression-inputs-replayed'] += len(regressions)
     # committed replays of known findings (if the check provides a reproducer) are re-run so that the KNOWN-FINDING
     # line is printed whenever the defect is still present, even if random search did not meet it this time
     known_printed: List[str] = []
